@@ -62,6 +62,18 @@ def lazy_slots(M: Model, files: set[str] | None = None) -> Iterator[LazySlot]:
             if not isinstance(i, ast.If):
                 continue
             s = _is_none_test(i.test)
+            alias = None
+            if isinstance(s, ast.Name):
+                # `x = obj.slot` ... `if x is None:`  (the slot read into a local first)
+                par = getattr(i, "_parent", None)
+                for fld in ("body", "orelse", "finalbody"):
+                    blk = getattr(par, fld, None)
+                    if isinstance(blk, list) and any(i is st for st in blk):
+                        for st in reversed(blk[: next(k for k, st in enumerate(blk) if st is i)]):
+                            if isinstance(st, (ast.Assign, ast.AnnAssign)) and getattr(st, "value", None) is not None and any(isinstance(t, ast.Name) and t.id == s.id for t in _targets(st)):
+                                if isinstance(st.value, ast.Attribute):
+                                    alias, s = s.id, st.value
+                                break
             if s is None or not isinstance(s, ast.Attribute):
                 continue
             base = _base(s)
